@@ -12,7 +12,8 @@ def main():
 20 properties; round 2: all 20 properties again with a request for larger shapes, unusual parameter combinations, cooperating edits at two
 sites, narrow numeric windows other than non-canonical operands, or AVX512-only branches; round 3: twelve properties once more with a request for
 something different from both - placement/aliasing of the caller's buffers, thread counts that do not divide the work, sizes above 2^16,
-offset patterns, rarely used overloads, or edits that keep every value right but touch an element outside the designated positions).  Each was confirmed by `seedtest.sh` in a fresh worktree (applies to HEAD, the repository suite passes 30/30 with it,
+offset patterns, rarely used overloads, or edits that keep every value right but touch an element outside the designated positions; round 4: the eight
+properties that had only four changes so far - C01, C04, C10, C11, C14, C15, C18, C20 - with the round-2 request).  Each was confirmed by `seedtest.sh` in a fresh worktree (applies to HEAD, the repository suite passes 30/30 with it,
 its demonstration fails with it and passes without it), then applied to /repo, the checks were run, and /repo was restored.  All are archived
 under `seeded/<name>/` (patch.diff, demonstration, build.sh, README.txt, meta.json); `seedcheck.sh` re-runs them all as a regression (every
 one must give exit 1 with a VIOLATION line, except the two changes documented as NOT CAUGHT, which no property covers: concurrent
@@ -43,8 +44,14 @@ round 3 repeated the lesson for other interfaces: placements of the caller's buf
 inside the input, batchInverse in place, lane and matrix kernels whose result register is an operand register are obligations now), the
 address of a buffer is an unknown multiple of its alignment (code that tests `p & 31` forks), and blocks that outlive the destructor are
 notes, not violations (no property forbids a process-lifetime cache; the change that hid state in a function-local static is caught by the
-values it produces on the next call).
-''' % (len(rows), 'fifty-two', '\n'.join(rows))
+values it produces on the next call).  Round 4 (16 changes) found two gaps, both closed in general form: a change that routed `fromScalar` through
+GMP entry points the stub layer did not have (`mpz_fits_slong_p`, `mpz_tdiv_ui`) ended inconclusive (exit 2) - the contract layer now has the
+fits/tdiv/cdiv/abs/cmpabs/addmul family, and the interpreter the `addcarry/subborrow`, saturating and `abs` intrinsics a rewrite of the carry
+chains would use; and a change that swaps `nphase` and `nblock` on the way from `INTT` to `NTT` keeps every value right and only overruns a
+caller buffer that is as small as the one the library allocates for itself - the harness used to hand over `size*ncols` words; it still does
+(so the run never faults) but now asks the solver, per effective block count the path condition admits, whether the touched extent fits
+`size*ceil(ncols/nblock)` words (`min_buffer_check` in `gv/props/ntt.py`, reported as `oob-write` so that C03/C04 and C18 both see it).
+''' % (len(rows), 'sixty', '\n'.join(rows))
     p = os.path.join(V, 'DESIGN.md'); s = open(p).read()
     i = s.find('### 8.5 Seeded changes'); j = s.find('### 8.6 ')
     tail = s[j:] if j >= 0 else ''
